@@ -91,6 +91,7 @@ type c19scn struct {
 	subnet    string
 	exclude   string
 	interval  time.Duration
+	quietMul  int // the owner gives up after that many intervals without the end (default 100)
 	slow      time.Duration // consumer pause per request
 	failOn    int           // 0 = never
 	stopAfter int           // the consumer cancels after this many requests (the scan's own end), 0 = only the event cancels
@@ -144,7 +145,11 @@ func c19scenario(s c19scn) (st *c19run, cfg func(*vs.Sched), main func()) {
 		}
 		// horizon: the scan is cancelled by its owner after stopAfter requests or, when a pass is made
 		// to fail (nothing more will come), after a long quiet time
-		quiet := time.After(100 * s.intervalOr(time.Second))
+		quietMul := time.Duration(100)
+		if s.quietMul > 0 {
+			quietMul = time.Duration(s.quietMul)
+		}
+		quiet := time.After(quietMul * s.intervalOr(time.Second))
 		for {
 			select {
 			case r, ok := <-out:
@@ -230,8 +235,24 @@ func c19check(s c19scn, st *c19run) vs.CheckFunc {
 				}
 			}
 		}
+		// whatever the passes deliver (nothing at all, when every target is excluded): a pass never starts
+		// sooner than the interval after the previous one started
+		for k := 1; k < len(st.del.starts); k++ {
+			if st.del.starts[k]-st.del.starts[k-1] < int64(s.interval) {
+				return "interval-between-starts", fmt.Errorf("pass %d was started %v after pass %d was started, rescan interval %v", k+1, time.Duration(st.del.starts[k]-st.del.starts[k-1]), k, s.interval)
+			}
+		}
 		// split into passes of len(targets)
 		n := len(targets)
+		if n == 0 {
+			if len(st.got) > 0 {
+				return "foreign", fmt.Errorf("every target is excluded, yet %v was delivered", c19ips(st.got))
+			}
+			if _, ev := x.Fired["cancel"]; !ev && len(st.del.starts) < 3 {
+				return "stalled", fmt.Errorf("only %d passes were started before the owner gave up (interval %v)", len(st.del.starts), s.interval)
+			}
+			return fmt.Sprintf("empty-passes=%d", len(st.del.starts)), nil
+		}
 		var passEnd, passStart []int64
 		for i := 0; i < len(st.got); i += n {
 			end := i + n
@@ -308,6 +329,9 @@ func verifC19(c *drv.Ctx) {
 		{subnet: "10.0.1.0/30", interval: 10 * time.Second, failOn: 2, bound: 1},
 		{subnet: "10.0.1.0/31", interval: 1, failOn: 3, bound: 1},
 		{subnet: "10.0.1.7/32", interval: time.Second, stopAfter: 4, bound: 2},
+		// every target excluded: passes that deliver nothing still come one interval apart
+		{subnet: "10.0.1.7/32", exclude: "10.0.1.7", interval: time.Second, bound: 1, quietMul: 6},
+		{subnet: "10.0.1.7/32", exclude: "10.0.1.7", interval: 200 * time.Millisecond, bound: 0, quietMul: 12},
 	}
 	if c.Thorough() {
 		scs = append(scs,
@@ -317,7 +341,11 @@ func verifC19(c *drv.Ctx) {
 			c19scn{subnet: "10.0.1.0/28", interval: time.Second, slow: 100 * time.Millisecond, stopAfter: 40, bound: 1},
 			c19scn{subnet: "10.0.1.0/31", interval: 3 * time.Second, failOn: 2, bound: 2})
 	}
-	c.R.Rule = "the real liveRequestGenerator over the real address generator (and exclusion filter) on /32../29 (/28 thorough), rescan interval {1 ns, 400 ms, 1 s, 10 s}, consumer prompt or pausing per request, the scan's owner cancelling after a fixed number of requests (2-3 passes) or a delegate wrapper failing on pass 2 or 3; " +
+	// intervals whose nanosecond count does not fit 31 or 32 bits (or has bit 31 set), deviation bound 0
+	for _, iv := range []time.Duration{3 * time.Second, 4 * time.Second, 7 * time.Second, 30 * time.Second, time.Minute, time.Hour, 100 * time.Hour, 1 << 31, 1<<32 - 1, 1 << 32} {
+		scs = append([]c19scn{{subnet: "10.0.1.0/31", interval: iv, stopAfter: 5, bound: 0}}, scs...)
+	}
+	c.R.Rule = "the real liveRequestGenerator over the real address generator (and exclusion filter) on /32../29 (/28 thorough), rescan interval {1 ns, 400 ms, 1 s, 10 s; at bound 0 also 3 s, 4 s, 7 s, 30 s, 1 min, 1 h, 100 h, 2^31 ns, 2^32-1 ns, 2^32 ns}, a target whose every address is excluded (empty passes), consumer prompt or pausing per request, the scan's owner cancelling after a fixed number of requests (2-3 passes) or a delegate wrapper failing on pass 2 or 3; " +
 		"every schedule with at most d deviations, the cancellation event injected at every choice point. Oracle: the stream is a concatenation of passes, each a duplicate-free sequence of targets (complete unless cut by cancellation); the first request of a pass comes no earlier than the interval after the last request of the previous pass was taken; " +
 		"no pass starts after the cancellation; the stream closes after cancellation and only then; no crash, no busy loop (step horizon), no hang. scenarios: " + fmt.Sprint(scs) + "; non-trivial = scenario"
 	for i, s := range scs {
